@@ -6,6 +6,7 @@ mod conformance;
 mod tla;
 mod selftest;
 mod streams;
+mod parts;
 
 use fp_harness::Tier;
 use std::os::unix::io::FromRawFd;
@@ -44,6 +45,7 @@ fn main() {
         _ => Tier::Quick,
     };
     let mut replay = None;
+    let mut part: Option<usize> = None;
     let mut i = 2;
     while i < args.len() {
         match args[i].as_str() {
@@ -53,6 +55,10 @@ fn main() {
             }
             "--replay" => {
                 replay = args.get(i + 1).cloned();
+                i += 1;
+            }
+            "--part" => {
+                part = args.get(i + 1).and_then(|s| s.parse().ok());
                 i += 1;
             }
             _ => {}
@@ -72,8 +78,8 @@ fn main() {
     }));
     let code = match id.as_str() {
         "SELFTEST" => selftest::run(),
-        "C05" => c05::run(tier, replay.clone()),
-        "C17" => c17::run(tier, replay),
+        "C05" => c05::run(tier, replay.clone(), part),
+        "C17" => c17::run(tier, replay, part),
         _ => {
             say!("unknown property {id}");
             2
